@@ -45,6 +45,7 @@ fn main() {
         "C19" => corr::c19::run(&mut ctx),
         "C20" => corr::c20::run(&mut ctx),
         "C01" => corr::c01::run(&mut ctx),
+        "C03" => corr::c03::run(&mut ctx),
         "C04" => corr::c04::run(&mut ctx),
         "C05" | "C06" | "C07" | "C09" => { let id2 = id.clone(); corr::conn::run(&mut ctx, &id2) },
         other => { eprintln!("unknown property {}", other); std::process::exit(2); },
